@@ -95,12 +95,43 @@ pub(crate) fn park<KB: KeyBuilder<Key = u64>>(kb: KB, store: Store, admit: TinyL
     Parked { cache, proc_, worker, cb: callback, store, policy, metrics }
 }
 
+pub(crate) const M_NEW: u8 = 1;
+pub(crate) const M_UPDATE: u8 = 2;
+pub(crate) const M_DELETE: u8 = 4;
+pub(crate) const M_WAIT: u8 = 8;
+pub(crate) const M_ALL: u8 = 15;
+
 impl<KB: KeyBuilder<Key = u64>> Parked<KB> {
     /// the processor takes the next queued item, if any (one iteration of its select! loop)
     pub fn process_one(&mut self) -> bool {
+        self.process_one_mask(M_ALL)
+    }
+    /// as `process_one`, for harnesses that know which kinds of item can be queued. After its
+    /// round trip through the FIFO (heap) CBMC no longer knows the item's variant and would explore
+    /// every arm of `handle_item` - including the whole New arm - at every call; the item is
+    /// therefore re-built per variant and handed over inside that arm, and kinds outside `mask`
+    /// (which the harness never queued) are cut.
+    pub fn process_one_mask(&mut self, mask: u8) -> bool {
         match self.proc_.insert_buf_rx.try_recv() {
             Ok(item) => {
-                let r = self.proc_.handle_insert_event(Ok(item));
+                let r = match item {
+                    Item::New { key, conflict, cost, value, expiration } => {
+                        nd::assume(mask & M_NEW != 0);
+                        self.proc_.handle_insert_event(Ok(Item::New { key, conflict, cost, value, expiration }))
+                    }
+                    Item::Update { key, cost, external_cost } => {
+                        nd::assume(mask & M_UPDATE != 0);
+                        self.proc_.handle_insert_event(Ok(Item::Update { key, cost, external_cost }))
+                    }
+                    Item::Delete { key, conflict } => {
+                        nd::assume(mask & M_DELETE != 0);
+                        self.proc_.handle_insert_event(Ok(Item::Delete { key, conflict }))
+                    }
+                    Item::Wait(wg) => {
+                        nd::assume(mask & M_WAIT != 0);
+                        self.proc_.handle_insert_event(Ok(Item::Wait(wg)))
+                    }
+                };
                 vassert!(r.is_ok(), "the processor handles a queued item without error");
                 true
             }
@@ -120,10 +151,13 @@ impl<KB: KeyBuilder<Key = u64>> Parked<KB> {
     }
     /// run the processor until nothing is pending (quiescence)
     pub fn drain(&mut self) {
+        self.drain_mask(M_ALL)
+    }
+    pub fn drain_mask(&mut self, mask: u8) {
         let mut i = 0;
         while i < 5 {
             let a = self.process_clear();
-            let b = self.process_one();
+            let b = self.process_one_mask(mask);
             if !a && !b {
                 return;
             }
@@ -570,9 +604,9 @@ fn client_remove(focus: u8) {
             None => vassert!(p.cb.all() == 0, "removing an absent key triggers no callback"),
         }
     }
-    let processed = p.process_one();
+    let processed = p.process_one_mask(M_DELETE);
     vassert!(processed, "remove queued a Delete item");
-    vassert!(!p.process_one(), "remove queued exactly one item");
+    vassert!(!p.process_one_mask(M_DELETE), "remove queued exactly one item");
     if f_cb {
         vassert!(p.cb.all() == if before.is_some() { 1 } else { 0 }, "processing the Delete triggers no second callback");
     }
@@ -636,7 +670,7 @@ cache_harness! {
         }
         let handled = p.process_clear();
         vassert!(handled, "clear() signalled the processor");
-        vassert!(!p.process_one(), "the cleaner drained the insert buffer: buffered work is discarded");
+        vassert!(p.proc_.insert_buf_rx.try_recv().is_err(), "the cleaner drained the insert buffer: buffered work is discarded");
         vassert!(p.cache.len() == 0 && policy_len(&p.policy) == 0 && policy_used(&p.policy) == 0, "at quiescence after clear() the cache is empty and nothing is charged");
         if queued {
             vassert!(p.cb.evicts(2) == 1 && p.cb.total(2) == 1, "a buffered insert discarded by clear() hands its value to on_evict exactly once");
@@ -678,7 +712,7 @@ cache_harness! {
                 vassert!(false, "an insert of an absent key queues a New item");
             }
         }
-        vassert!(p.process_one(), "the New item is processed");
+        vassert!(p.process_one_mask(M_NEW), "the New item is processed");
         let admitted = raw(&p.store, k).is_some();
         // later: a cleanup tick somewhere after the OLD deadline
         let t_tick = clock::advance_nd(8);
@@ -774,7 +808,7 @@ cache_harness! {
             vassert!(p.cb.all() == 0, "no callback fires for the resident value");
             if let Some((_, it)) = item {
                 vassert!(p.enqueue(it), "buffer has room");
-                vassert!(p.process_one(), "the queued item is processed");
+                vassert!(p.process_one_mask(M_NEW), "the queued item is processed");
                 vassert!(raw(&p.store, idx) == Some(e), "processing the colliding insert leaves the resident value untouched");
                 vassert!(p.cb.rejects(1) == 1 && p.cb.total(1) == 1 && p.cb.total(0) == 0, "the colliding key's value is refused through on_reject");
             } else {
@@ -784,7 +818,7 @@ cache_harness! {
         } else {
             vassert!(p.cache.try_remove(&k2).is_ok(), "remove of the colliding key returns Ok");
             vassert!(raw(&p.store, idx) == Some(e), "remove of the colliding key does not remove the other key's value");
-            vassert!(p.process_one(), "the queued Delete is processed");
+            vassert!(p.process_one_mask(M_DELETE), "the queued Delete is processed");
             vassert!(raw(&p.store, idx) == Some(e) && p.cb.all() == 0, "processing the colliding Delete leaves the resident value in place, no callback");
             vassert!(p.sp_ok(idx), "the resident key is still charged after a colliding remove (resident <=> charged)");
             vcover!(true, "colliding remove");
@@ -868,7 +902,7 @@ fn c10_driver() {
             // another thread's clear() lands after the marker was queued: the cleaner meets it
             assert!(p.cache.clear().is_ok(), "clear() returns Ok");
         }
-        p.drain();
+        p.drain_mask(M_NEW | M_DELETE | M_WAIT);
     }
 }
 
@@ -1075,26 +1109,23 @@ cache_harness! {
 
 fn probe_parts(part: u8) {
     let cfg = any_cfg();
-    let (p, _a, _b, _ents) = any_parked_n(TransparentKeyBuilder::<u64>::default(), 0, cfg, Some(true), 0);
+    let (mut p, _a, _b, _ents) = any_parked_n(TransparentKeyBuilder::<u64>::default(), 0, cfg, Some(true), 1);
     let k = nd::any_u64();
-    let cost = nd::any_i64_in(0, COST_MAX);
     if part == 1 {
-        let (v, added) = p.policy.add(k, cost);
-        vassert!(!added || p.policy.contains(&k), "added => charged");
-        vcover!(added, "admitted");
-        std::mem::forget(v);
+        let r = p.cache.try_remove(&k);
+        vassert!(r.is_ok(), "remove ok");
+        vcover!(true, "p1");
     } else if part == 2 {
-        let r = p.store.try_insert(k, 2, 0, time_at(clock::get(), Duration::ZERO));
-        vassert!(r.is_ok() && raw(&p.store, k).is_some(), "inserted");
-        vcover!(true, "inserted");
+        let g = p.cache.get(&k).is_some();
+        vassert!(g == raw(&p.store, k).is_some(), "get");
+        vcover!(g, "p2");
     } else if part == 3 {
-        let r = p.store.try_remove(&k, 0);
-        vassert!(r.is_ok() && raw(&p.store, k).is_none(), "removed");
-        vcover!(true, "removed");
+        vassert!(p.enqueue(Item::Delete { key: k, conflict: 0 }), "enq");
+        vassert!(p.process_one_mask(M_DELETE), "processed");
+        vcover!(true, "p3");
     } else {
-        p.cb.on_reject(crate::Item { val: Some(2), index: k, conflict: 0, cost, exp: time_at(clock::get(), Duration::ZERO) });
-        vassert!(p.cb.rejects(2) == 1, "callback");
-        vcover!(true, "callback");
+        vassert!(p.enqueue(Item::Delete { key: k, conflict: 0 }), "enq");
+        vcover!(true, "p4");
     }
     std::mem::forget(p);
 }
